@@ -227,7 +227,8 @@ CLAIMS = {
              "state, and the whole history incl. its own steps only added directories, so N callers compose; C12_target_is_spec "
              "(refinement against the kernel specification): on an unmodified tree the partial lookup — on either backend — hands "
              "the creating loop the object after the longest resolvable prefix of the path and exactly the remaining components "
-             "that are not ''/'.'. Tie and oracle: mkdir_all on generated trees/paths (existing prefixes through links, "
+             "that are not ''/'.'; C12_exact (Proofs/MkExact.lean): alone on the mutable kernel state the creating loop succeeds and "
+             "the final state is the initial one with one mkdirat per missing component, in order, nothing else. Tie and oracle: mkdir_all on generated trees/paths (existing prefixes through links, "
              "'..' in the existing part, dangling links, non-directories in the way) on both backends, replayed through the model; "
              "exact-effect oracle: nothing removed or modified, additions are directories forming one chain that starts in an "
              "existing directory and ends at the returned handle, the handle is the live kernel's in-root resolution of the path, "
